@@ -166,7 +166,15 @@ impl Search {
 
         #[cfg(rce_verif)]
         crate::verif_hooks::sched_point("search.pre_bestmove");
-        self.log(format!("bestmove {}", self.info.best_move.unwrap()).as_str());
+        // If not even the first iteration could be completed, any legal move is better than no answer
+        let best_move = self
+            .info
+            .best_move
+            .or_else(|| self.original_board.get_legal_moves().first().copied());
+        match best_move {
+            Some(best_move) => self.log(format!("bestmove {best_move}").as_str()),
+            None => self.log("bestmove 0000"),
+        }
         #[cfg(rce_verif)]
         crate::verif_hooks::sched_point("search.post_bestmove");
     }
